@@ -1265,6 +1265,8 @@ class MindsDBParser(Parser):
         if hasattr(p, 'id'):
             query.alias = Identifier(parts=[p.id])
         if hasattr(p, 'column_list'):
+            if not isinstance(query, Select):
+                raise ParsingException(f'Column list is allowed only for a sub-select: {query}')
             for i, col in enumerate(p.column_list):
                 if i >= len(query.targets):
                     break
